@@ -2,7 +2,8 @@ import AmcVerif.Props.C04b
 /-! C04 (generated model, second part) — the remaining SmallSet members as regenerated from `smallset.hpp` on every run
 (`translator/smallset2lean.py` → `Gen/SmallSetGen.lean`, tied to the hand-written model in `Bridge/SmallSetBridge.lean`): range
 insertion (`insert(first, last)`, `insert(initializer_list)`, `operator=(initializer_list)`, the range / initializer-list
-constructors), `erase(first, last)` (both iterator kinds), `swap`, `insert(hint, value)`, `extract`.  Every statement also says
+constructors), `erase(first, last)` (both iterator kinds), `swap`, `insert(hint, value)`, `extract`, the comparison operators
+(`C04_gen_eq`, `C04_gen_order`, `C04_gen_order_repr`).  Every statement also says
 that no undefined behaviour is reached (the generated function returns `some _`). -/
 namespace AmcVerif.Props.C04
 open AmcVerif AmcVerif.FS AmcVerif.Sets AmcVerif.Bridge.SmallSet
@@ -151,17 +152,81 @@ theorem C04_gen_eq [DecidableEq α] (hswo : SWO lt) (N : Nat) (s o : SSet α) (h
     exact hsz hp.length_eq
 
 /-- the ordering operators on the code as it is now are all defined through `operator<` and are consistent with each other;
-    a set is not less than itself when `<` of the elements is irreflexive.  `operator<` sorts the inline elements with a
-    default-constructed comparator (the parameter `lt_default`), not with the comparator object of the set -/
-theorem C04_gen_order (N : Nat) (s o : SSet α) (lt_default ltT : α → α → Bool) (hirr : ∀ a, ltT a a = false) :
-    ∃ r, Gen.SmallSet.op_lt lt N s o lt_default ltT = some (r, 0)
-      ∧ Gen.SmallSet.op_gt lt N o s lt_default ltT = some (r, 0)
-      ∧ Gen.SmallSet.op_ge lt N s o lt_default ltT = some (!r, 0)
-      ∧ Gen.SmallSet.op_le lt N o s lt_default ltT = some (!r, 0)
-      ∧ Gen.SmallSet.op_lt lt N s s lt_default ltT = some (false, 0) := by
-  refine ⟨_, op_lt_eq lt N s o lt_default ltT, op_gt_eq lt N o s lt_default ltT, op_ge_eq lt N s o lt_default ltT,
-    op_le_eq lt N o s lt_default ltT, ?_⟩
+    a set is not less than itself when `<` of the elements is irreflexive.  `operator<` sorts the inline elements of each set with
+    the comparator object of that set (`key_comp()` / `o.key_comp()`, here `lt`): the outcome is `ltS lt ltT`, which involves no
+    other comparator -/
+theorem C04_gen_order (N : Nat) (s o : SSet α) (ltT : α → α → Bool) (hirr : ∀ a, ltT a a = false) :
+    ∃ r, r = ltS lt ltT s o
+      ∧ Gen.SmallSet.op_lt lt N s o ltT = some (r, 0)
+      ∧ Gen.SmallSet.op_gt lt N o s ltT = some (r, 0)
+      ∧ Gen.SmallSet.op_ge lt N s o ltT = some (!r, 0)
+      ∧ Gen.SmallSet.op_le lt N o s ltT = some (!r, 0)
+      ∧ Gen.SmallSet.op_lt lt N s s ltT = some (false, 0) := by
+  refine ⟨_, rfl, op_lt_eq lt N s o ltT, op_gt_eq lt N o s ltT, op_ge_eq lt N s o ltT, op_le_eq lt N o s ltT, ?_⟩
   rw [op_lt_eq]
   simp only [ltS, vecLess_irrefl ltT hirr]
+
+/-- `std::sort` of a list without two equivalent elements, with the comparator `lt`: strictly increasing, same elements -/
+theorem sortedBy_sorted (hswo : SWO lt) (l : List α) (hnd : NoEquivDup lt l) :
+    Sorted lt (Gen.SmallSet.sortedBy lt l) ∧ (Gen.SmallSet.sortedBy lt l).Perm l := by
+  have hperm : (Gen.SmallSet.sortedBy lt l).Perm l := List.mergeSort_perm l _
+  refine ⟨?_, hperm⟩
+  have hle : (Gen.SmallSet.sortedBy lt l).Pairwise (fun a b => (!lt b a) = true) := by
+    unfold Gen.SmallSet.sortedBy
+    refine List.pairwise_mergeSort (le := fun a b => !lt b a) ?_ ?_ l
+    · intro a b c hab hbc
+      cases hca : lt c a with
+      | false => rfl
+      | true =>
+        rcases hswo.cotrans c b a hca with h | h
+        · rw [h] at hbc; cases hbc
+        · rw [h] at hab; cases hab
+    · intro a b
+      cases hba : lt b a with
+      | false => rfl
+      | true => simp [hswo.asymm hba]
+  have hnd' : NoEquivDup lt (Gen.SmallSet.sortedBy lt l) :=
+    (hperm.pairwise_iff (fun {a b} (h : ¬ Equiv lt a b) => fun h' => h (equiv_symm h'))).mpr hnd
+  unfold Sorted
+  refine (hle.and hnd').imp ?_
+  intro a b ⟨h1, h2⟩
+  cases hab : lt a b with
+  | true => rfl
+  | false =>
+    exfalso; apply h2
+    refine ⟨hab, ?_⟩
+    cases hba : lt b a with
+    | false => rfl
+    | true => rw [hba] at h1; cases h1
+
+/-- the sequence that `operator<` compares is, for a set that satisfies the invariant, THE strictly increasing arrangement (by the
+    comparator `lt` of the set) of its elements, whether the set is inline or large -/
+theorem sortedElems_spec (hswo : SWO lt) (N : Nat) (s : SSet α) (h : s.Inv lt N) :
+    Sorted lt (sortedElems lt s) ∧ (sortedElems lt s).Perm s.elems := by
+  unfold sortedElems SSet.elems
+  cases hs : s.isSmall
+  · simp only [Bool.false_eq_true, if_false]
+    exact ⟨h.sorted, List.Perm.refl _⟩
+  · simp only [if_true]
+    exact sortedBy_sorted hswo s.vec h.nodup
+
+/-- what `operator<` and the operators defined through it answer does not depend on the states the two sets are in (inline or
+    large), only on their elements: sets with the same elements are interchangeable on either side.  This rests on each side being
+    ordered by the comparator object of its own set, which is also the one that orders the backing set -/
+theorem C04_gen_order_repr (hswo : SWO lt) (N : Nat) (s s' o o' : SSet α) (h : s.Inv lt N) (h' : s'.Inv lt N)
+    (ho : o.Inv lt N) (ho' : o'.Inv lt N) (hp : s.elems.Perm s'.elems) (hpo : o.elems.Perm o'.elems) (ltT : α → α → Bool) :
+    Gen.SmallSet.op_lt lt N s o ltT = Gen.SmallSet.op_lt lt N s' o' ltT
+      ∧ Gen.SmallSet.op_le lt N s o ltT = Gen.SmallSet.op_le lt N s' o' ltT
+      ∧ Gen.SmallSet.op_gt lt N s o ltT = Gen.SmallSet.op_gt lt N s' o' ltT
+      ∧ Gen.SmallSet.op_ge lt N s o ltT = Gen.SmallSet.op_ge lt N s' o' ltT := by
+  have key : ∀ (a b : SSet α), a.Inv lt N → b.Inv lt N → a.elems.Perm b.elems → sortedElems lt a = sortedElems lt b := by
+    intro a b ha hb hab
+    obtain ⟨sa, pa⟩ := sortedElems_spec hswo N a ha
+    obtain ⟨sb, pb⟩ := sortedElems_spec hswo N b hb
+    exact List.Perm.eq_of_pairwise (le := fun x y => lt x y = true)
+      (fun x y _ _ hxy hyx => by rw [hswo.asymm hxy] at hyx; cases hyx) sa sb ((pa.trans hab).trans pb.symm)
+  have e1 := key s s' h h' hp
+  have e2 := key o o' ho ho' hpo
+  simp only [op_lt_eq, op_le_eq, op_gt_eq, op_ge_eq, ltS, e1, e2, and_self]
 
 end AmcVerif.Props.C04
